@@ -29,6 +29,7 @@ type Case struct {
 	OK    bool   `json:"ok"`
 	Neg   bool   `json:"neg"`
 	After int64  `json:"after"` // > 0: second script of a sequential RunT call whose first script leaves at t0 + after
+	Via   string `json:"via"`   // "run": through testscript.Run with a real *testing.T (informational: the whole driver runs in that mode)
 }
 
 // Obs is one observation, the record DeadlineL1 judges (field names as in the spec).
@@ -41,6 +42,7 @@ type Obs struct {
 	OK       bool   `json:"ok"`
 	Neg      bool   `json:"neg"`
 	After    int64  `json:"after"`
+	Via      string `json:"via"`
 	Start    int64  `json:"start"`
 	Sig      int64  `json:"sig"`
 	SelfExit int64  `json:"selfexit"`
@@ -437,6 +439,10 @@ func runGroup(g group, self, work string, col *collector, jm *jitterMon, spawnMa
 				root.failed = true
 			}
 		}()
+		if viaT != nil {
+			viaRun(root, g, runFiles, deadline)
+			return
+		}
 		testscript.RunT(root, testscript.Params{Files: runFiles, Deadline: deadline})
 	}()
 	allDone := make(chan struct{})
@@ -486,7 +492,7 @@ func runGroup(g group, self, work string, col *collector, jm *jitterMon, spawnMa
 		root.mu.Lock()
 		st := root.subs[names[i]]
 		root.mu.Unlock()
-		o := Obs{ID: c.ID, Label: c.Label, D: g.D, X: c.X, OnInt: c.OnInt, OK: c.OK, Neg: c.Neg, After: c.After,
+		o := Obs{ID: c.ID, Label: c.Label, D: g.D, X: c.X, OnInt: c.OnInt, OK: c.OK, Neg: c.Neg, After: c.After, Via: c.Via,
 			Start: cl.start, Sig: cl.sig, SelfExit: cl.selfexit, Last: cl.last, RunDone: rel(runDone),
 			SRun: srun, Gap: cl.gap, Beats: cl.beats, CLog: cl.raw, SigName: cl.signame, Pid: cl.pid, Group: g.id, Verdict: "none", Msg: "none", Done: -1}
 		if o.SigName == "" {
